@@ -387,13 +387,15 @@ def f7_obligations(P, out):
             b2 = b.replace("zzv = 0\n", f"zzv = {lit}\n")
             if a2 != a:
                 jobs.append((f"{name[:-5]}/{tag}", a2, b2))
+    # integer parameters given a fractional constant: folded like the run-time conversion (truncation)
+    jobs += [j for j in c8.LITVAR_JOBS if "/fraction-" in j[0]]
     del c8.LITVAR_JOBS[:]
     t0 = time.time()
     with mp.Pool(16) as pool:
         res = pool.map(c8._litvar_one, jobs, chunksize=1)
     bad = [(n, v, d, a) for n, v, d, a, b in res if v not in ("same", "rejected")]
     out.append({"name": "C03/F7/constant-folding-to-a-falsy-value-is-still-an-argument", "status": "discharged" if not bad else "sat", "backend": "enum+fwsim", "bounded": True,
-                "where": f"{len(jobs)} (device method, numeric parameter, constant expression folding to zero) cases: the firmware trace equals that of the same value in a variable",
+                "where": f"{len(jobs)} (device method, numeric parameter, constant expression folding to zero / fractional constant for an integer parameter) cases: the firmware trace equals that of the same value in a variable",
                 "time": round(time.time() - t0, 2), "replay": {"failing": [{"case": n, "verdict": v, "detail": d, "script": a[-160:]} for n, v, d, a in bad[:4]]}, "replay_confirmed": bool(bad)})
 
 
